@@ -349,6 +349,9 @@ configparser_parse_else_condition(config_t * const ctx)
     buffer_append_str2(&dc->key, BUF_PTR_LEN(&ctx->current->key),
                                  CONST_STR_LEN(" / "
                                                "else_tmp_token"));
+    /*(unique temporary key: conditions nested in different plain else blocks
+     * of the same enclosing block must not end up with identical keys)*/
+    buffer_append_int(&dc->key, ctx->all_configs->used);
     configparser_push(ctx, dc, 1);
 }
 
